@@ -300,6 +300,18 @@ def deductive(res, agg):
                         agg.vc(fn, "solver_kwargs arrive unchanged at the back end", struct_vc(cl["kwargs"].get("tok") is tok, str(list(cl["kwargs"]))), cfg)
     # ---- solver_kwargs through the wrappers SVD.fit_transform and PCA.fit
     deductive_forwarding(res, agg)
+    # ---- the seed reaches every randomised component of the composite models (opaque token = every seed)
+    class SeedTok:
+        pass
+    seed = SeedTok()
+    m = xeofs.cross.CPCCA(n_modes=2, alpha=0.5, random_state=seed)
+    agg.vc("BaseModelCrossSet.__init__", "random_state reaches the decomposer and both PCA pre-reductions",
+           struct_vc(m._decomposer_kwargs.get("random_state") is seed and m.pca1.random_state is seed and m.pca2.random_state is seed,
+                     f"decomposer {m._decomposer_kwargs.get('random_state')!r}, pca1 {m.pca1.random_state!r}, pca2 {m.pca2.random_state!r}"), "")
+    pm = xeofs.single.POP(n_modes=2, random_state=seed)
+    agg.vc("POP.__init__", "random_state reaches the PCA pre-reduction", struct_vc(pm.pca.random_state is seed, repr(pm.pca.random_state)), "")
+    em = xeofs.single.EOF(n_modes=2, random_state=seed)
+    agg.vc("BaseModelSingleSet.__init__", "random_state reaches the decomposer", struct_vc(em._decomposer_kwargs.get("random_state") is seed, repr(em._decomposer_kwargs)), "")
     deductive_sign(res, agg)
 
 
